@@ -27,7 +27,7 @@ def snip_case(draw):
     spec = draw(G.signal_spec(nmin=1, nmax=128, dtypes=FLOATS, nchan_max=3, max_trailing=1, data_kinds=("noise", "index", "tone")))
     N = spec["n"]
     n = draw(st.one_of(st.integers(0, N), st.sampled_from([0, N, 1, max(0, N - 1)])))
-    forms = ["int", "float", "dur", "dt", "qsamp"] + (["time"] if spec["t0"] else [])
+    forms = ["int", "float", "dur", "dt", "qsamp", "npint", "npfloat", "arr0"] + (["time"] if spec["t0"] else [])
     form = draw(st.sampled_from(forms))
     i = draw(st.one_of(st.integers(0, N - n), st.just(N - n), st.just(0)))
     frac = 0
@@ -44,6 +44,12 @@ def to_arg(case, z):
     t = F(case["i"]) + F(case["frac"], 1024)
     form = case["form"]
     rate = rate_hz(z)
+    if form in ("npint", "npfloat", "arr0"):
+        # NumPy scalars / 0-d arrays are numbers too
+        if case["frac"] == 0 and form == "npint":
+            return np.int64(int(t)), t, True
+        v = float(t)
+        return (np.float64(v) if form != "arr0" else np.array(v)), t, case["frac"] == 0
     if case.get("tiny") and form in ("int", "float"):
         tf = float(t) + case["tiny"]
         return tf, F(tf), tf == int(tf)
@@ -113,8 +119,9 @@ def run_snip(case, stt):
     if teff < 0 or teff + n > N:
         stt.label("skip_rounded_out_of_range")
         return
+    n_arg = np.int64(n) if case["form"] in ("npint", "npfloat") else n
     with lib("snippet"):
-        y = pb.snippet(z, arg, n)
+        y = pb.snippet(z, arg, n_arg)
     contract(y, "snippet")
     check(len(y) == n, "snippet returned {} samples, requested {}", len(y), n)
     check(type(y) is type(z) and y.shape[1:] == z.shape[1:] and y.data.dtype == x.dtype, "type/sample shape/dtype changed")
